@@ -535,10 +535,16 @@ def install(mon, reach):
     from orquestra.quantum.circuits import _gates as G
 
     for cls in (G.MatrixFactoryGate, G.ControlledGate, G.Dagger, G.Power, G.Exponential):
-        for attr in ("dagger", "controlled", "power", "exp", "replace_params"):
-            reach.watch(cls.__dict__[attr], f"{cls.__name__}.{attr}")
-        if "matrix" in cls.__dict__:
-            reach.watch(cls.__dict__["matrix"], f"{cls.__name__}.matrix")
+        def _raw(c, a):
+            # where the class gets the attribute from - itself or a (private) base class that gate kinds share
+            for k in c.__mro__:
+                if a in k.__dict__:
+                    return k.__dict__[a]
+            return None
+        for attr in ("dagger", "controlled", "power", "exp", "replace_params", "matrix"):
+            raw = _raw(cls, attr)
+            if raw is not None:
+                reach.watch(raw, f"{cls.__name__}.{attr}")
         for attr in ("dagger", "controlled", "power", "exp"):
             mon.hook_method(cls, attr, post=_mk_modifier_hook(attr), name=f"{cls.__name__}.{attr}")
     mon.max_depth = 1  # judge the call the driver (or a test) makes; re-association internals are its implementation
